@@ -585,6 +585,7 @@ func init() {
 					items = append(items, Item{Name: fmt.Sprintf("histories/base-tests=%d,posts=%d", k, p), MaxDevs: -1, Run: c16Scenario(c16Depth(tier), k, p)})
 				}
 			}
+			items = append(items, Item{Name: "records-through-tagged-front-ends", MaxDevs: -1, Run: c16RecordsScenario})
 			return items
 		},
 	})
